@@ -194,6 +194,7 @@ Theorem C07_gov_halting_calls :
   [("EndBlocker:keeper.InactiveProposalsQueue.Walk", "keeper.Proposals.Get");
    ("EndBlocker:keeper.InactiveProposalsQueue.Walk", "failUnsupportedProposal");
    ("EndBlocker:keeper.InactiveProposalsQueue.Walk", "keeper.DeleteProposal");
+   ("EndBlocker:keeper.InactiveProposalsQueue.Walk", "keeper.InactiveProposalsQueue.Remove");
    ("EndBlocker:keeper.InactiveProposalsQueue.Walk", "keeper.DeleteProposal");
    ("EndBlocker:keeper.InactiveProposalsQueue.Walk", "keeper.Params.Get");
    ("EndBlocker:keeper.InactiveProposalsQueue.Walk", "keeper.RefundAndDeleteDeposits");
